@@ -35,7 +35,7 @@ fn smps_json(v: &[HitSampleInfo]) -> Value {
     Value::Array(v.iter().map(smp_json).collect())
 }
 
-fn proj(h: &mut HitObject) -> Value {
+pub fn proj(h: &mut HitObject) -> Value {
     let t = num(h.start_time);
     let smp = smps_json(&h.samples);
     match &mut h.kind {
@@ -73,6 +73,14 @@ fn build_file(inp: &Value, timing: &[Value], rng: &mut Rng, shift: i64) -> Strin
     }
     s.push_str("\n[HitObjects]\n");
     for o in geta(inp, "objs") {
+        s.push_str(&spell_obj(o, rng, shift));
+        s.push('\n');
+    }
+    s
+}
+
+/// one hit-object line for an abstract object record (its id is carried by the x coordinate)
+pub fn spell_obj(o: &Value, rng: &mut Rng, shift: i64) -> String {
         let id = geti(o, "id");
         let x = id * 10;
         let tn = geti(o, "t") + shift;
@@ -92,10 +100,7 @@ fn build_file(inp: &Value, timing: &[Value], rng: &mut Rng, shift: i64) -> Strin
             "spinner" => format!("256,192,{t},{},{hs},{},{bi}", 8 + nc, tn + geti(o, "dur")),
             _ => format!("{x},192,{t},128,{hs},{}:{bi}", tn + geti(o, "dur")),
         };
-        s.push_str(&line);
-        s.push('\n');
-    }
-    s
+        line
 }
 
 fn decode_proj(text: &str) -> Result<(Vec<Value>, Vec<Value>), String> {
